@@ -1089,3 +1089,137 @@ Proof. eexists; eexists; split; [vm_compute; reflexivity |]. repeat split; refle
 Example single_instance_nonvacuous :
   exists s, run 1000 init [LProc false v_live 0 []; LProc false v_live 1 []] = Some s /\ o_live s = [(0%nat, 0%nat)].
 Proof. eexists; split; vm_compute; reflexivity. Qed.
+
+(* ------------------------------------------------------------------ F702: forced removal while the daemons are being stopped *)
+
+(* When the cycles continue, the staged stop proceeds: in the cancellation stage a not-yet-cancelled running daemon IS
+   cancelled, in the abandonment stage it IS given up. *)
+Lemma stage_cancels_when_due : forall h spoll now why sp ex,
+  is_set sp (Some why) = true -> stage_of (eff_backoff h) (eff_timeout h) (age_of now sp) = SCancel ->
+  is_set sp (Some RCancelled) = false ->
+  r_cancel (stage h spoll now why sp false ex) = true /\ is_set (r_sp (stage h spoll now why sp false ex)) (Some RCancelled) = true.
+Proof.
+  intros h spoll now why sp ex Hw Hs Hc. rewrite stage_unfold. unfold stage_head. rewrite Hw. fold (age_of now sp) in *. rewrite Hs.
+  unfold nudge. rewrite Hc. destruct (wait_instant false ex) as [d ex']. cbn. split; [reflexivity | apply is_set_after_set].
+Qed.
+
+Lemma stage_abandons_when_due : forall h spoll now why sp ex,
+  is_set sp (Some why) = true -> stage_of (eff_backoff h) (eff_timeout h) (age_of now sp) = SAbandon ->
+  is_set (r_sp (stage h spoll now why sp false ex)) (Some RAbandoned) = true /\ r_delays (stage h spoll now why sp false ex) = [].
+Proof.
+  intros h spoll now why sp ex Hw Hs. rewrite stage_unfold. unfold stage_head. rewrite Hw. fold (age_of now sp) in *. rewrite Hs.
+  destruct (is_set sp (Some RAbandoned)) eqn:Ea; cbn; split; auto. apply is_set_after_set.
+Qed.
+
+(* An instance of a forgotten memory of a gone object that the killer does not hold: nothing can touch it any more. *)
+Definition stranded (s : ost) (id ser : nat) (i : inst) : Prop :=
+  o_gone s = true /\ o_known s = false /\ o_kiter s = false /\ ~ In ser (o_kstop s) /\
+  lookup id (o_running s) = Some i /\ i_ser i = ser.
+
+Lemma orphan_is_stranded : forall s id ser, orphan s id ser -> exists i, stranded s id ser i /\ sp_reason (i_sp i) = None.
+Proof. intros s id ser (Hg & Hk & Hi & Hn & i & Hl & Hs & Hr). exists i; unfold stranded; auto 10. Qed.
+
+Lemma gone_step : forall spoll s l s', o_gone s = true -> step spoll s l = Some s' -> o_gone s' = true.
+Proof.
+  intros spoll s l s' Hg. destruct l; cbn [step].
+  - rewrite Hg; discriminate.
+  - destruct (lookup id (o_running s)); [| discriminate]. destruct (Nat.eqb _ _); [| discriminate].
+    intros E. destruct (finish_misc _ _ _ E) as (_ & E2 & _). congruence.
+  - destruct (o_known s); [| discriminate]. intros E; injection E as <-; exact Hg.
+  - destruct (o_kiter s); [| discriminate]. intros E; injection E as <-; exact Hg.
+  - destruct (_ && _); [| discriminate]. intros E; injection E as <-. unfold upd_inst. destruct (lookup id (o_running s)); [| exact Hg]. destruct (Nat.eqb _ _); exact Hg.
+  - destruct (_ && _); [| discriminate]. intros E; injection E as <-. unfold upd_inst. destruct (lookup id (o_running s)); [| exact Hg]. destruct (Nat.eqb _ _); exact Hg.
+  - destruct (_ || _); [| discriminate]. intros E; injection E as <-. unfold upd_inst. destruct (lookup id (o_running s)); [| exact Hg]. destruct (Nat.eqb _ _); exact Hg.
+Qed.
+
+Lemma gone_absent_step : forall spoll s l s' id, o_gone s = true -> lookup id (o_running s) = None -> step spoll s l = Some s' ->
+  lookup id (o_running s') = None.
+Proof.
+  intros spoll s l s' id Hg Hn E. apply lookup_keys. intros Hin. apply lookup_keys in Hn. apply Hn.
+  destruct l; cbn [step] in E.
+  - rewrite Hg in E; discriminate.
+  - destruct (lookup id0 (o_running s)); [| discriminate]. destruct (Nat.eqb _ _); [| discriminate].
+    apply (finish_keys _ _ _ E) in Hin. tauto.
+  - destruct (o_known s); [| discriminate]. injection E as <-; exact Hin.
+  - destruct (o_kiter s); [| discriminate]. injection E as <-; exact Hin.
+  - destruct (_ && _); [| discriminate]. injection E as <-.
+    match type of Hin with context [upd_inst s ?a ?b ?c] => destruct (upd_inst_same s a b c) as [_ Ek]; rewrite Ek in Hin end; exact Hin.
+  - destruct (_ && _); [| discriminate]. injection E as <-.
+    match type of Hin with context [upd_inst s ?a ?b ?c] => destruct (upd_inst_same s a b c) as [_ Ek]; rewrite Ek in Hin end; exact Hin.
+  - destruct (_ || _); [| discriminate]. injection E as <-.
+    match type of Hin with context [upd_inst s ?a ?b ?c] => destruct (upd_inst_same s a b c) as [_ Ek]; rewrite Ek in Hin end; exact Hin.
+Qed.
+
+Lemma gone_absent_run : forall spoll tr s s' id, o_gone s = true -> lookup id (o_running s) = None -> run spoll s tr = Some s' ->
+  lookup id (o_running s') = None.
+Proof.
+  induction tr as [| l tr IH]; cbn; intros s s' id Hg Hn.
+  - intros E; injection E as <-; exact Hn.
+  - destruct (step spoll s l) as [s1 |] eqn:E; [| discriminate]. apply IH; [eapply gone_step; eauto | eapply gone_absent_step; eauto].
+Qed.
+
+Lemma stranded_upd : forall s id ser i id0 ser0 f,
+  stranded s id ser i -> (nmem ser0 (o_kstop s) || negb (has_inst s id0 ser0)) = true -> stranded (upd_inst s id0 ser0 f) id ser i.
+Proof.
+  intros s id ser i id0 ser0 f (Hg & Hk & Hi & Hn & Hl & Hs) G.
+  unfold upd_inst. destruct (lookup id0 (o_running s)) as [j |] eqn:Ej; [| unfold stranded; auto 10].
+  destruct (Nat.eqb (i_ser j) ser0) eqn:Es; [| unfold stranded; auto 10].
+  destruct (Nat.eq_dec id id0) as [-> | Hne].
+  - exfalso. rewrite Hl in Ej; injection Ej as <-. apply Nat.eqb_eq in Es. unfold has_inst in G. rewrite Hl in G.
+    rewrite Hs in *. subst ser0. rewrite Nat.eqb_refl in G. cbn in G. rewrite orb_false_r in G. apply nmem_In in G. contradiction.
+  - unfold stranded; prj. repeat split; auto. rewrite lookup_update_other by exact Hne. exact Hl.
+Qed.
+
+Lemma stranded_step : forall spoll s l s' id ser i, stranded s id ser i -> step spoll s l = Some s' ->
+  stranded s' id ser i \/ lookup id (o_running s') = None.
+Proof.
+  intros spoll s l s' id ser i Hst. pose proof Hst as (Hg & Hk & Hi & Hn & Hl & Hs). destruct l; cbn [step].
+  - rewrite Hg; discriminate.
+  - destruct (lookup id0 (o_running s)) as [j |] eqn:Ej; [| discriminate]. destruct (Nat.eqb (i_ser j) ser0); [| discriminate].
+    intros Hf. destruct (Nat.eq_dec id id0) as [-> | Hne]; [right; eapply finish_removes; eauto |].
+    left. destruct (finish_misc _ _ _ Hf) as (E1 & E2 & E3 & E4 & _). unfold stranded. rewrite E1, E2, E3, E4.
+    repeat split; auto. rewrite (finish_lookup_other _ _ _ _ Hf Hne). exact Hl.
+  - rewrite Hk; discriminate.
+  - rewrite Hi; discriminate.
+  - destruct (_ && _) eqn:G; [| discriminate]. intros E; injection E as <-. left. apply andb_prop in G as [G _]. apply stranded_upd; assumption.
+  - destruct (_ && _) eqn:G; [| discriminate]. intros E; injection E as <-. left. apply andb_prop in G as [G _]. apply stranded_upd; assumption.
+  - destruct (_ || _) eqn:G; [| discriminate]. intros E; injection E as <-. left. apply stranded_upd; assumption.
+Qed.
+
+(* whatever the operator does from then on — events of that uid cannot come, pause, resume, exit, other killer activity —
+   the instance is exactly as it was: no further reason, no cancellation, no abandonment; it can only end by itself *)
+Theorem stranded_never_touched : forall spoll tr s s' id ser i, stranded s id ser i -> run spoll s tr = Some s' ->
+  forall i', lookup id (o_running s') = Some i' -> i' = i.
+Proof.
+  induction tr as [| l tr IH]; cbn; intros s s' id ser i Hst.
+  - intros E; injection E as <-. destruct Hst as (_ & _ & _ & _ & Hl & _). intros i' Hi'. congruence.
+  - destruct (step spoll s l) as [s1 |] eqn:E; [| discriminate]. intros Hr.
+    destruct (stranded_step _ _ _ _ _ _ _ Hst E) as [H1 | Hnone]; [eapply IH; eauto |].
+    intros i' Hi'. destruct Hst as (Hg & _). pose proof (gone_step _ _ _ _ Hg E) as Hg1.
+    rewrite (gone_absent_run _ _ _ _ _ Hg1 Hnone Hr) in Hi'. discriminate.
+Qed.
+
+(* the witness: graceful deletion requested at 1000 (flag + SIGNALLED, next check asked for in 1000 ms), finalizers stripped by
+   a foreign write at 1500 -> DELETED event WITH deletionTimestamp: stop_daemons again asks for a next check (500 ms) that never comes *)
+Definition h_bt : hcfg := {| h_kind := KDaemon; h_backoff := Some 1000; h_timeout := Some 2000; h_polling := None |}.
+Definition v_bt (deleting : bool) : view := {| v_matching := [(0%nat, h_bt)]; v_deleting := deleting; v_paused := false |}.
+Definition forced_removal_trace : list label :=
+  [LProc false (v_bt false) 0 []; LProc false (v_bt true) 1000 [(false, [false; false])]; LProc true (v_bt true) 1500 [(false, [])]].
+
+Lemma stop_on_forced_removal_refuted :
+  exists s i, run 1000 init forced_removal_trace = Some s /\ stranded s 0 0 i /\ In (0%nat, 0%nat) (o_live s) /\
+    is_set (i_sp i) (Some RDeleted) = true /\ eff_backoff (i_h i) = Some 1000 /\ eff_timeout (i_h i) = Some 2000 /\
+    o_delays s = [500] /\
+    i_canc i = false /\ is_set (i_sp i) (Some RCancelled) = false /\ is_set (i_sp i) (Some RAbandoned) = false.
+Proof.
+  eexists; eexists. split; [vm_compute; reflexivity |]. unfold stranded; cbn. repeat split; auto; try (intros []).
+Qed.
+
+(* the same history with the cycles continuing (no forced removal: the touch after the returned delay arrives): cancelled at
+   flag + backoff, given up at flag + backoff + timeout, then nothing left to wait for *)
+Example stop_on_forced_removal_counterpart :
+  exists s i, run 1000 init [LProc false (v_bt false) 0 []; LProc false (v_bt true) 1000 [(false, [false; false])];
+                             LProc false (v_bt true) 2000 [(false, [false])]; LProc false (v_bt true) 4000 [(false, [])]] = Some s
+    /\ lookup 0%nat (o_running s) = Some i /\ i_canc i = true /\ is_set (i_sp i) (Some RCancelled) = true
+    /\ is_set (i_sp i) (Some RAbandoned) = true /\ o_delays s = [].
+Proof. eexists; eexists. split; [vm_compute; reflexivity |]. cbn. repeat split; reflexivity. Qed.
